@@ -97,6 +97,16 @@ type c32StRecorder struct {
 
 func (s *c32StRecorder) handler(next interp.ExecHandlerFunc) interp.ExecHandlerFunc {
 	return func(ctx context.Context, args []string) error {
+		if args[0] == "__eq" && len(args) == 3 {
+			// `__eq want "$x"`: what an expansion gave, checked without going through stdout
+			s.mu.Lock()
+			s.n++
+			if args[1] != args[2] {
+				s.bad = append(s.bad, fmt.Sprintf("an expansion gave %q, want %q (output of another command substitution's job leaked in?)", args[2], args[1]))
+			}
+			s.mu.Unlock()
+			return nil
+		}
 		if args[0] == "__st" && len(args) == 3 {
 			s.mu.Lock()
 			s.n++
@@ -424,7 +434,8 @@ func c32RaceClass(report string) (string, string) {
 		first = first[:i+20]
 	}
 	switch {
-	case strings.Contains(first, "strings.(*Builder)") && strings.Contains(first, "expand.(*Config).cmdSubst"):
+	case strings.Contains(first, "strings.(*Builder)") &&
+		(strings.Contains(first, "expand.(*Config).cmdSubst") || strings.Contains(first, "interp.(*lockedWriter)")):
 		// two goroutines of one command substitution write its output buffer
 		summary = "cmdsubst-output strings.Builder"
 	case strings.Contains(first, "interp.(*Runner).errf") && strings.Contains(first, "fillExpandConfig.func2"):
@@ -508,12 +519,48 @@ func c32BodyC(r *Rand, depth int, conc bool) string {
 			st := r.Pick([]string{"0", "3", "7", "42"})
 			parts = append(parts, fmt.Sprintf("( __delay %d; exit %s ) & jp=$!; %s; wait $jp; __st %s $?", r.Intn(3)*200, st, c32Simple(r), st))
 		case k == 31 && conc:
-			parts = append(parts, "f bg & g bg & wait")
+			if r.Bool() {
+				parts = append(parts, c32Grandchild(r))
+			} else {
+				parts = append(parts, "f bg & g bg & wait")
+			}
 		default:
 			parts = append(parts, c32Simple(r))
 		}
 	}
 	return strings.Join(parts, "\n")
+}
+
+// c32Grandchild: command (and process) substitutions whose stdout is written by background jobs that
+// are NOT direct children of the substitution's shell — started inside a nested ( ), by another
+// background job, or by a function that backgrounds inside a subshell — so that they can outlive the
+// substitution; followed by further $(…) expansions in the parent, which reuse the expansion
+// buffer, with their results checked (`__eq`).
+func c32Grandchild(r *Rand) string {
+	d := func() string { return fmt.Sprint(r.Intn(4) * 150) }
+	w := func() string { return r.Pick([]string{"echo gc", "echo \"${arr[@]}\"", "f gc", "g gc", "printf '%s\\n' late"}) }
+	sub := r.Pick([]string{
+		"x=$( ( " + w() + " & ) )",
+		"x=$( { { " + w() + " & } & } )",
+		"x=$( ( { __delay " + d() + "; " + w() + "; } & ) )",
+		"x=$( ( ( " + w() + " & ) & ) ; echo own )",
+		"gh() { ( " + w() + " & ); }; x=$(gh)",
+		"gh() { { { __delay " + d() + "; " + w() + "; } & } & }; x=$(gh; echo own)",
+		"x=$( { " + w() + " & } & " + w() + " )",
+		"x=\"$( ( " + w() + " & ) )$( ( " + w() + " & ) )\"",
+		"x=$( echo lit | ( cat; " + w() + " & ) )",
+		"while read -r l; do s+=$l; done < <( ( " + w() + " & ); echo own )",
+		"read -r l < <( { { __delay " + d() + "; " + w() + "; } & } & echo own ); echo \"$l\" >/dev/null",
+	})
+	tok := r.Pick([]string{"foo", "bar7", "q"})
+	after := r.Pick([]string{
+		"y=$( __delay " + d() + "; echo " + tok + " ); __eq " + tok + " \"$y\"",
+		"y=$(echo " + tok + "); __eq " + tok + " \"$y\"",
+		"y=\"$(echo " + tok + ")$(echo " + tok + ")\"; __eq " + tok + tok + " \"$y\"",
+		"for i in 1 2 3; do y=$( __delay 100; echo " + tok + "$i ); __eq " + tok + "$i \"$y\"; done",
+		"y=${s:+$(echo " + tok + ")}; z=$(( $(echo 2) + 1 )); __eq 3 $z",
+	})
+	return sub + "\n" + after
 }
 
 func c32Simple(r *Rand) string {
@@ -532,6 +579,18 @@ func c32GenJob(r *Rand, id int) c32Job {
 		return job
 	}
 	job.Mode = "run"
+	if r.Chance(15) {
+		stmts := []string{c32Preamble}
+		for i := 2 + r.Intn(4); i > 0; i-- {
+			stmts = append(stmts, c32Grandchild(r))
+			if r.Chance(40) {
+				stmts = append(stmts, c32Simple(r))
+			}
+		}
+		stmts = append(stmts, "wait")
+		job.Progs = []string{strings.Join(stmts, "\n")}
+		return job
+	}
 	if r.Chance(5) {
 		// The FIFO of a process substitution removed before its goroutine opens it (the error path
 		// fixed by f9b9e42).  When the goroutine is already blocked in open(2) it stays there and a
@@ -663,7 +722,7 @@ func c32Search(c *Ctx, n int) {
 				// re-run alone before judging
 				again := c32RunJobs(c, dir, []c32Job{oc.job}, 1)
 				if len(again[0].res.BadWaits) > 0 {
-					c.Fail("wait-status "+c32JobWitness(oc.job), "wait returned another job's status: "+strings.Join(again[0].res.BadWaits, "; "))
+					c.Fail("wrong-result "+c32JobWitness(oc.job), "a wait status or an expansion result is wrong: "+strings.Join(again[0].res.BadWaits, "; ")+" — program: "+strings.ReplaceAll(strings.Join(oc.job.Progs, " ‖ "), "\n", " ⏎ "))
 				} else {
 					c.Case("", false, "search:wait-not-reproduced")
 					if os.Getenv("VERIF_C32_DEBUG") != "" {
